@@ -134,7 +134,13 @@ def binding (K : Nat) : Trace.Binding (proto K) :=
       | _, _ => none
     retOf := fun l => match l with
       | .done r => some r
-      | _ => none }
+      | _ => none
+    -- declared orders of mpmc_ring_buffer.h: the slot sequence number is read with acquire and
+    -- published with release; the position counters are relaxed
+    reqOrder := fun l => match l with
+      | .eLoadSeq _ _ => 2 | .ePub _ => 3 | .oLoadSeq _ => 2 | .oPub _ _ => 3
+      | .bSeq _ _ _ => 2 | .bPub _ _ _ _ => 3
+      | _ => 0 }
 
 /-- initial memory: head = tail = 0, `seq[i] = i`, data slots hold the moved-from marker -/
 def initMem (_K : Nat) : Fld → Int := fun f =>
